@@ -85,6 +85,8 @@ func c02(r *Report) {
 	}
 
 	r.Guard("C02.R1", "request modifier exactly once before upstream contact, response modifier exactly once before the client write; p.reqmod/p.resmod invoked nowhere else", func() {
+		setterStoresRule(r, "", "Proxy", "SetRequestModifier", "reqmod", "the configured request modifier never runs")
+		setterStoresRule(r, "", "Proxy", "SetResponseModifier", "resmod", "the configured response modifier never runs")
 		// who-may-call
 		for _, f := range w.Funcs() {
 			for _, c := range calls(f) {
@@ -287,6 +289,9 @@ func c02(r *Report) {
 				r.Decide("lockset", fmt.Sprintf("ctxs %s in %s", kind, fnName(f)), ok2, "in the allowed set and under ctxmu "+ls.String(), "context table accessed outside link/unlink/NewContext/TestContext or without ctxmu; lockset "+ls.String(), in.Pos())
 			}
 		}
+		// the table is the only place a context can be found: the lookup keeps nothing of its
+		// own (a memo of the last hit survives unlink)
+		statelessRule(r, r.W.Fn("", "NewContext"), map[string]bool{"ctxs": true, "ctxmu": true}, "a context remains retrievable through it after unlink removed it from the table")
 	})
 
 	r.Guard("C02.R4", "a modifier error becomes a Warning on the message just modified and processing continues", func() {
